@@ -10,7 +10,7 @@ RULE = ('caption sets with sorted, non-overlapping cues below 24 h on a millisec
         'markup-looking literals; no "|" when MicroDVD is on the chain), touching and separated cues; 1-2 '
         'languages for chains made of DFXP / SAMI only. All 25 ordered format pairs per set, plus sampled '
         'chains of length 3-5; every chain is run twice. After every hop the cues are compared with the source '
-        'at the coarsest resolution so far (SAMI: final end of a language exempt). Non-trivial: two different '
+        'at the coarsest resolution so far (SAMI: final end of a language exempt). Some sets repeat a text inside a language. Non-trivial: two different '
         'formats on the chain or a metacharacter in the text.')
 ANCHORS = ['pycaption.srt:SRTReader.read', 'pycaption.srt:SRTWriter.write', 'pycaption.webvtt:WebVTTReader.read',
            'pycaption.webvtt:WebVTTWriter.write', 'pycaption.dfxp.base:DFXPReader.read',
